@@ -554,7 +554,15 @@ class Exec:
             if base[0] != 'p': raise Unsupported('gep on %r' % (base[:1],))
             off = base[2] + const
             for d, es in steps:
-                i = ev(st, fr, d); off += to_signed(s.conc(st, i, 'index'), i[1]) * es
+                i = ev(st, fr, d)
+                try: off += to_signed(s.conc(st, i, 'index'), i[1]) * es
+                except Unsupported as e:
+                    # an index with too many feasible values: if it can also leave the object, that is the finding
+                    if 'values to concretise' in str(e) and base[1] is not None and not isinstance(i[2], int):
+                        o = st.mem[base[1]]; w = i[1]; lim = max(0, (o.size - off) // es)
+                        r, m = s.check(st, [z3.UGT(i[2], z3.BitVecVal(lim, w))] if not True else [z3.Or(z3.UGT(i[2], z3.BitVecVal(lim, w)))])
+                        if r == z3.sat: raise MemViolation('index into %s can exceed its %d elements (symbolic index out of bounds)' % (o.name, lim))
+                    raise
             regs[dest] = ('p', base[1], off); fr.ip += 1; return
         if op == 'ibin':
             regs[dest] = s.ibin(ins[2], ev(st, fr, ins[3]), ev(st, fr, ins[4])); fr.ip += 1; return
